@@ -44,7 +44,7 @@ const (
 	opPGC      = "pgc"
 	opIGC      = "igc"
 	opReBits   = "rebits"   // close, reopen with index bit size A (translation)
-	opMismatch = "mismatch" // close, try to open with another file size (A: 1 index, 2 primary; B: size), reopen properly
+	opMismatch = "mismatch" // close, try to open with another file size (A: 1 index, 2 primary; B: size; Key: 8..24 = also with this bit size), reopen properly
 )
 
 // SeqCase is a sequential history on one store.
@@ -56,28 +56,29 @@ type SeqCase struct {
 
 // SeqStats describes what a run exercised; used for the non-triviality rules.
 type SeqStats struct {
-	SharedPrefixPair  bool // two put keys in one bucket sharing >=1 byte after the bucket prefix
-	Supersede         int  // overwrites with a new value + removals of present keys
-	Rejected          int  // immutable puts rejected
-	ReadAfterFlush    bool
-	Flushes           int
-	Reopens           [3]int
-	ReopenAfterWork   bool // reopen preceded by rollover / removal of flushed key / GC change / empty list
-	GCChanged         int  // GC cycles that changed at least one byte on disk
-	GCInterrupted     int
-	GCWithUnflushed   int
-	IndexFiles        int
-	PrimaryFiles      int
-	EmptyValues       int
-	Steps             int
-	ReadAfterGC       bool
-	GCKinds           map[string]bool
-	GCErrors          []string // error returns of GC cycles (not violations by themselves)
-	SupersededFlushed bool     // a key whose entry had been flushed was overwritten or removed
-	Translations      int
-	TranslatedNT      bool // a translation of >=6 keys, >=2 sharing a bucket afterwards, from >=2 index files
-	BitPairs          []string
-	Mismatches        int
+	SharedPrefixPair   bool // two put keys in one bucket sharing >=1 byte after the bucket prefix
+	Supersede          int  // overwrites with a new value + removals of present keys
+	Rejected           int  // immutable puts rejected
+	ReadAfterFlush     bool
+	Flushes            int
+	Reopens            [3]int
+	ReopenAfterWork    bool // reopen preceded by rollover / removal of flushed key / GC change / empty list
+	GCChanged          int  // GC cycles that changed at least one byte on disk
+	GCInterrupted      int
+	GCWithUnflushed    int
+	IndexFiles         int
+	PrimaryFiles       int
+	EmptyValues        int
+	Steps              int
+	ReadAfterGC        bool
+	GCKinds            map[string]bool
+	GCErrors           []string // error returns of GC cycles (not violations by themselves)
+	SupersededFlushed  bool     // a key whose entry had been flushed was overwritten or removed
+	Translations       int
+	TranslatedNT       bool // a translation of >=6 keys, >=2 sharing a bucket afterwards, from >=2 index files
+	BitPairs           []string
+	Mismatches         int
+	MismatchesWithBits int
 }
 
 // seqOpts selects optional behaviour of the runner.
@@ -836,10 +837,17 @@ func (r *seqRunner) doMismatch(i int, op Op) *Violation {
 		}
 		wrong.PrimSize = size
 	}
+	alsoBits := ""
+	if op.Key >= 8 && op.Key <= 24 && uint8(op.Key) != wrong.Bits {
+		// The bit size differs as well.
+		wrong.Bits = uint8(op.Key)
+		alsoBits = fmt.Sprintf(" and %d instead of %d index bits", wrong.Bits, r.c.Cfg.Bits)
+		r.stats.MismatchesWithBits++
+	}
 	s, err := openStore(r.dir, wrong)
 	if err == nil {
 		s.Close()
-		return viol("mismatch-accepted|mismatch|", i, "open with a different %s file size (%d) succeeded", map[int]string{1: "index", 2: "primary"}[which], size)
+		return viol("mismatch-accepted|mismatch|", i, "open with a different %s file size (%d)%s succeeded", map[int]string{1: "index", 2: "primary"}[which], size, alsoBits)
 	}
 	var ie types.ErrIndexWrongFileSize
 	var pe types.ErrPrimaryWrongFileSize
